@@ -357,6 +357,18 @@ def e2e_clause(case, rules, out):
         return
     _spurious(rbgen.to_odict(case["tree"]) if case["tree"] else res_explicit_old(case, res),
               rbgen.to_odict(case["tree2"]), diff, rules, out, " (whole pipeline gen._old_new_per_device + api._diff_and_patch)")
+    # the same with `--clear` (no_new: the generators are not run, the desired configuration is empty): old and new are
+    # still completed the same way, so a default the device does not spell out is in no diff entry
+    try:
+        res = c10.run_old_new(case["model"], [gen_cls], _text(case["tree"]) or None, add_implicit=True,
+                              tags=case["tags"], no_new=True)
+        if res.err:
+            return
+        diff, _pt = api._diff_and_patch(dev, res.old, res.new, res.acl_rules, None, False)
+    except Exception:
+        return
+    _spurious(rbgen.to_odict(case["tree"]) if case["tree"] else res_explicit_old(case, res),
+              rbgen.to_odict([]), diff, rules, out, " (whole pipeline with --clear)")
 
 
 def res_explicit_old(case, res):
